@@ -33,6 +33,22 @@ Fixpoint model_trace (univ : list (Z * Z)) (c : config) (s : state) (steps : lis
 Definition model_case (univ : list (Z * Z)) (c : config) (h0 t0 : Z) (l0 : ledger) (steps : list step) : case :=
   (c, obs_of univ 0 None [] (init h0 t0 l0), model_trace univ c (init h0 t0 l0) steps).
 
+(** ** splitting the clause lists *)
+Ltac not_here E :=
+  repeat match type of E with
+  | In _ [] => contradiction E
+  | In _ (_ :: _) => destruct E as [E|E]; [try discriminate E|]
+  | In _ (_ ++ _) => apply in_app_or in E; destruct E as [E|E]
+  | In _ (if ?b then _ else _) => destruct b
+  | In _ (match ?x with _ => _ end) => destruct x
+  | In _ (flat_map _ _) => let a := fresh "a" in apply in_flat_map in E; destruct E as (a & _ & E)
+  | In _ (map _ _) =>
+      let x0 := fresh "x0" in let Hin := fresh "Hin" in
+      apply in_map_iff in E; destruct E as (x0 & E & Hin); try (destruct x0 as [? ?]); discriminate E
+  end.
+
+Ltac split_seg E := apply in_app_or in E; destruct E as [E|E].
+
 (** ** list lemmas *)
 Lemma first_fail_in l k : first_fail l = k -> k <> 0 -> In (false, k) l.
 Proof.
@@ -223,6 +239,219 @@ Qed.
 Lemma reach_kc c steps : forall s, NoDup (keys (ctxs s)) -> NoDup (keys (ctxs (run c s steps))).
 Proof. induction steps as [|st r IH]; intros s H; [exact H|]. cbn [run]. apply IH. apply apply_kc. exact H. Qed.
 
+(** ** the owner recorded on every binding of a provider is the provider's owner, and only
+    bound providers have an owner *)
+Record WInv (s : state) : Prop := {
+  w_own : forall k b, In (k, b) (binds s) -> get (snd k) (owners s) = Some (b_owner b);
+  w_has : forall p, has p (owners s) = true -> exists svc, has (svc, p) (binds s) = true
+}.
+Definition wr (s s' : state) : Prop := WInv s -> WInv s'.
+
+Lemma wr_refl s : wr s s.
+Proof. intros H. exact H. Qed.
+Lemma wr_trans s1 s2 s3 : wr s1 s2 -> wr s2 s3 -> wr s1 s3.
+Proof. intros A B H. apply B, A, H. Qed.
+Lemma wr_same s s' : binds s' = binds s -> owners s' = owners s -> wr s s'.
+Proof. intros A B [I1 I2]. constructor; rewrite ?A, ?B; assumption. Qed.
+Lemma wr_set s s' k b0 b' :
+  owners s' = owners s -> get k (binds s) = Some b0 -> b_owner b' = b_owner b0 -> binds s' = set k b' (binds s) -> wr s s'.
+Proof.
+  intros A Hg Ho B [I1 I2]. constructor; rewrite ?A, ?B.
+  - intros k1 b1 Hin. apply in_set in Hin. destruct Hin as [E|Hin]; [|apply I1; exact Hin].
+    inversion E; subst. rewrite Ho. apply I1. apply get_In. exact Hg.
+  - intros p0 Hh. destruct (I2 p0 Hh) as (svc & Hs). exists svc. apply has_set_mono. exact Hs.
+Qed.
+
+Lemma WInv_bind c s svc prov depd depa pr qos optok owner s' :
+  bind c s svc prov depd depa pr qos optok owner = Okk s' -> wr s s'.
+Proof.
+  intros H [I1 I2]. unfold bind in H. destruct pr as [[[pd pa] pt] pv].
+  destruct (negb _); [discriminate|]. destruct (negb _); [discriminate|].
+  destruct (has (svc, prov) (binds s)) eqn:Ehb; [discriminate|].
+  destruct (get prov (owners s)) as [o|] eqn:Eo.
+  - destruct (negb (o =? owner)) eqn:Eoo; [discriminate|]. apply negb_false_iff, Z.eqb_eq in Eoo. subst o.
+    repeat match type of H with (if ?g then Rejj else _) = _ => destruct g; [discriminate|] end.
+    destruct (min_deposit c s pd pa) as [m|]; [|discriminate]. destruct (depa <? m); [discriminate|].
+    destruct (send (led s) owner DEP BASE depa) as [l|]; [|discriminate]. inversion H; subst s'; clear H.
+    constructor; cbn [owners binds with_binds with_led].
+    + intros k b Hin. apply in_set in Hin. destruct Hin as [E|Hin]; [|apply I1; exact Hin]. inversion E; subst. exact Eo.
+    + intros p0 Hh. destruct (I2 p0 Hh) as (svc0 & Hs). exists svc0. apply has_set_mono. exact Hs.
+  - repeat match type of H with (if ?g then Rejj else _) = _ => destruct g; [discriminate|] end.
+    destruct (min_deposit c s pd pa) as [m|]; [|discriminate]. destruct (depa <? m); [discriminate|].
+    destruct (send (led s) owner DEP BASE depa) as [l|]; [|discriminate]. inversion H; subst s'; clear H.
+    constructor; cbn [owners binds with_binds with_led with_owners].
+    + intros k b Hin. apply in_set in Hin. destruct Hin as [E|Hin].
+      * inversion E; subst. cbn [snd b_owner]. apply get_set_same.
+      * pose proof (I1 k b Hin) as Hk. rewrite get_set_other; [exact Hk|]. intros Ek. rewrite Ek, Eo in Hk. discriminate.
+    + intros p0 Hh. destruct (eq_dec p0 prov) as [->|Hne]; [exists svc; apply has_set_same|].
+      rewrite has_set_other in Hh by exact Hne. destruct (I2 p0 Hh) as (svc0 & Hs). exists svc0. apply has_set_mono. exact Hs.
+Qed.
+
+Ltac w_frame H :=
+  repeat dmn H; inversion H; subst; clear H;
+  first [apply wr_same; reflexivity | eapply wr_set; [reflexivity|eassumption| |reflexivity]; reflexivity].
+
+Lemma exec_msg_plain_wr c s txh m s' : exec_msg_plain c s txh m = Okk s' -> wr s s'.
+Proof.
+  intros H. destruct m; simpl in H.
+  - unfold define in H. w_frame H.
+  - eapply WInv_bind; eassumption.
+  - unfold update_binding in H. w_frame H.
+  - unfold set_withdraw in H. w_frame H.
+  - unfold enable in H. w_frame H.
+  - unfold disable in H. w_frame H.
+  - unfold refund_deposit in H. w_frame H.
+  - unfold call in H. destruct (negb _); [discriminate|].
+    destruct (create_context _ _ _ _ _ _ _ _ _ _ _ _ _ _ _ _) as [[s1 id]|] eqn:E; [|discriminate].
+    inversion H; subst. unfold create_context in E. w_frame E.
+  - destruct (respond_tally _ _ _ _ _ _ H) as (q & q' & e & _ & _ & _ & _ & _ & _ & A & B). apply wr_same; assumption.
+  - unfold msg_ctl, k_pause in H. w_frame H.
+  - unfold msg_ctl, k_start in H. w_frame H.
+  - unfold msg_ctl, k_kill in H. w_frame H.
+  - unfold update_context in H. w_frame H.
+  - unfold withdraw in H. w_frame H.
+Qed.
+
+Lemma call_module_wr c s txh svc provs cons inok capd capa timeout rep freq total s' :
+  call_module c s txh svc provs cons inok capd capa timeout rep freq total = Okk s' -> wr s s'.
+Proof.
+  unfold call_module. intros H. destruct (negb _); [discriminate|].
+  destruct (create_context c s txh svc [c_mprov c] cons inok capd capa 1 false 0 0 0 0 false) as [[s1 id]|] eqn:E1; [|discriminate].
+  assert (I1 : wr s s1) by (clear H; unfold create_context in E1; w_frame E1).
+  destruct (get id (ctxs s1)) as [x|] eqn:Ex; [|discriminate].
+  destruct (filter_provs s1 x (x_provs x)) as [[|p0 ps]|]; try discriminate.
+  destruct (debit_all (led s1) (x_cons x) (total_fees s1 x [c_mprov c])) as [l|]; [|discriminate].
+  set (s2 := initiate_ms (with_led s1 (credit_all l REQ (total_fees s1 x [c_mprov c]))) id x [c_mprov c]) in *.
+  assert (I2 : wr s1 s2) by (apply wr_same; reflexivity).
+  destruct (respond c s2 (id, x_batch x + 1, height s, 0) (c_mprov c) 1) as [s3| |] eqn:Er; try discriminate.
+  destruct (respond_tally _ _ _ _ _ _ Er) as (q & q' & e & _ & _ & _ & _ & _ & _ & A & B).
+  cbv beta iota in H. injection H as <-.
+  eapply wr_trans; [exact I1|]. eapply wr_trans; [exact I2|]. eapply wr_trans; [apply wr_same; eassumption|].
+  apply wr_same; reflexivity.
+Qed.
+
+Lemma exec_msg_wr c s txh m s' : exec_msg c s txh m = Okk s' -> wr s s'.
+Proof.
+  intros H. destruct m; cbn [exec_msg] in H; try (eapply exec_msg_plain_wr; eassumption).
+  - destruct (module_served c svc); [discriminate|]. eapply WInv_bind; eassumption.
+  - destruct (module_served c svc); [eapply call_module_wr; exact H|].
+    eapply (exec_msg_plain_wr c s txh (MCall svc provs cons inok capd capa timeout rep freq total)); exact H.
+Qed.
+
+Lemma slash_wr c s svc prov : wr s (slash c s svc prov).
+Proof.
+  unfold slash. destruct (get (svc, prov) (binds s)) as [b|] eqn:Eg; [|apply wr_refl].
+  destruct (b_dep b <? _); [apply wr_refl|]. destruct (send _ _ _ _ _); [|apply wr_refl].
+  eapply (wr_set s _ (svc, prov) b); [reflexivity|exact Eg| |reflexivity].
+  cbv zeta. destruct (b_avail _); [|reflexivity]. destruct (min_deposit _ _ _ _) as [m|]; [destruct (m <=? _)|]; reflexivity.
+Qed.
+
+Lemma expire_wr c x s e : wr s (expire_request c x s e).
+Proof.
+  destruct e as [rid q]. unfold expire_request. eapply wr_trans; [apply (slash_wr c s (x_svc x) (q_prov q))|].
+  destruct (send _ _ _ _ _); apply wr_same; reflexivity.
+Qed.
+
+Lemma expired_handler_wr c s id : wr s (expired_batch_handler c s id).
+Proof.
+  unfold expired_batch_handler. destruct (get id (ctxs s)) as [x|]; [|apply wr_refl].
+  set (pr := if x_brun x then _ else (s, x)).
+  assert (H1 : wr s (fst pr)).
+  { subst pr. destruct (x_brun x); [|apply wr_refl]. simpl.
+    assert (F : wr s (fold_left (expire_request c x) (filter (fun e => in_batch id (x_batch x) e && q_active (snd e)) (reqs s)) s)).
+    { apply (fold_left_inv (fun t => wr s t)); [|apply wr_refl]. intros t e Ht. eapply wr_trans; [exact Ht|apply expire_wr]. }
+    destruct (x_mod x); [|exact F]. eapply wr_trans; [exact F|]. unfold callback. destruct (get id (ctxs _)); apply wr_same; reflexivity. }
+  destruct pr as [s1 x1]. simpl in H1. cbv zeta. eapply wr_trans; [exact H1|].
+  destruct (x_state x1 =? 2); destruct (x_state x1 =? 0); try destruct (x_rep x1 && _); apply wr_same; reflexivity.
+Qed.
+
+Lemma new_handler_wr s id : wr s (new_batch_handler s id).
+Proof.
+  unfold new_batch_handler. destruct (get id (ctxs s)) as [x|]; [|apply wr_refl].
+  destruct (x_state x =? 0); [|apply wr_same; reflexivity].
+  destruct (filter_provs s x (x_provs x)) as [ps|]; [|apply wr_same; reflexivity].
+  cbv zeta. destruct (_ && _); [|apply wr_same; reflexivity].
+  destruct (debit_all _ _ _); [apply wr_same; reflexivity|].
+  unfold on_paused. destruct (x_mod x); apply wr_same; reflexivity.
+Qed.
+
+Lemma apply_wr c s st : wr s (apply c s st).
+Proof.
+  unfold apply. destruct (exec_step c s st) as [s'| |] eqn:E; try apply wr_refl.
+  destruct st; cbn [exec_step] in E.
+  - eapply exec_msg_wr. exact E.
+  - destruct (0 <=? dt); [|discriminate]. inversion E; subst. unfold end_block. cbv zeta.
+    set (s1 := fold_left (expired_batch_handler c) _ s).
+    assert (H1 : wr s s1).
+    { subst s1. apply (fold_left_inv (fun t => wr s t)); [|apply wr_refl].
+      intros t id Ht. eapply wr_trans; [exact Ht|apply expired_handler_wr]. }
+    set (s2 := fold_left new_batch_handler _ s1).
+    assert (H2 : wr s s2).
+    { subst s2. apply (fold_left_inv (fun t => wr s t)); [|exact H1].
+      intros t id Ht. eapply wr_trans; [exact Ht|apply new_handler_wr]. }
+    eapply wr_trans; [exact H2|apply wr_same; reflexivity].
+  - inversion E; subst. apply wr_same; reflexivity.
+  - w_frame E.
+  - destruct (create_context _ _ _ _ _ _ _ _ _ _ _ _ _ _ _ _) as [[s1 id]|] eqn:E1; [|discriminate].
+    inversion E; subst. unfold create_context in E1. w_frame E1.
+  - unfold k_pause in E. w_frame E.
+  - unfold k_start in E. w_frame E.
+  - unfold k_kill in E. w_frame E.
+  - eapply WInv_bind; eassumption.
+Qed.
+
+Lemma reach_W c steps h0 t0 l0 : WInv (run c (init h0 t0 l0) steps).
+Proof.
+  assert (G : forall s, WInv s -> WInv (run c s steps)).
+  { induction steps as [|st r IH]; intros s H; [exact H|]. cbn [run]. apply IH. apply apply_wr. exact H. }
+  apply G. constructor; simpl; [intros k b []|intros p H; discriminate].
+Qed.
+
+(** ** C07, clause 3 *)
+Lemma owner_of_obs univ code nc cb s p : WInv s -> has p (owners s) = true ->
+  Check.owner_of (obs_of univ code nc cb s) p = owner_of s p.
+Proof.
+  intros Hw Hh. unfold Check.owner_of, owner_of. cbn [obs_of o_binds].
+  destruct (w_has _ Hw p Hh) as (svc & Hs). unfold has in Hs. destruct (get (svc, p) (binds s)) as [b0|] eqn:Eg; [|discriminate].
+  destruct (filter (fun e : Z * Z * bind_t => snd (fst e) =? p) (map (fun e : Z * Z * binding => (fst e, bind_tuple (snd e))) (binds s))) as [|e l] eqn:Ef.
+  - exfalso. assert (Hin : In ((svc, p), bind_tuple b0) (filter (fun e : Z * Z * bind_t => snd (fst e) =? p) (map (fun e : Z * Z * binding => (fst e, bind_tuple (snd e))) (binds s)))).
+    { apply filter_In. split; [|simpl; apply Z.eqb_refl]. apply in_map_iff. exists ((svc, p), b0). split; [reflexivity|apply get_In; exact Eg]. }
+    rewrite Ef in Hin. exact Hin.
+  - assert (Hin : In e (e :: l)) by (left; reflexivity). rewrite <- Ef in Hin. apply filter_In in Hin. destruct Hin as (Hin & Hp).
+    apply in_map_iff in Hin. destruct Hin as ([k b] & <- & Hin). cbn [fst snd] in *. apply Z.eqb_eq in Hp.
+    pose proof (w_own _ Hw k b Hin) as Ho. rewrite Hp in Ho. rewrite Ho. reflexivity.
+Qed.
+
+Lemma osum_obs univ code nc cb s o d : WInv s -> TInv s ->
+  sumz (fun e' : Z * Z * Z => if (snd (fst e') =? d) && (Check.owner_of (obs_of univ code nc cb s) (fst (fst e')) =? o) then snd e' else 0) (earned s)
+  = osum s o d.
+Proof.
+  intros Hw Ht. unfold osum, msum, sumz. f_equal. apply map_ext_in. intros [[p0 d0] v] Hin. unfold own_in. cbn [fst snd].
+  rewrite (owner_of_obs univ code nc cb s p0 Hw (t_u3 _ Ht p0 d0 v Hin)). reflexivity.
+Qed.
+
+Lemma getz_in_NoDup {K} `{EqDec K} (k : K) v (m : amap K Z) : NoDup (keys m) -> In (k, v) m -> getz k m = v.
+Proof. intros Hnd Hin. unfold getz. rewrite (In_get_NoDup k v m Hnd Hin). reflexivity. Qed.
+
+Theorem model_passes_C07_clause_3_lemma :
+  forall c steps h0 t0 l0 univ p st code nc cb,
+    let s := run c (init h0 t0 l0) steps in
+    holds_C07 c p st (obs_of univ code nc cb s) <> 3.
+Proof.
+  intros c steps h0 t0 l0 univ p st code nc cb s E.
+  assert (Ht : TInv s) by (subst s; apply run_inv; [intros; apply TInv_apply; assumption|apply TInv_init]).
+  pose proof (reach_W c steps h0 t0 l0) as Hw. fold s in Hw.
+  apply first_fail_in in E; [|lia]. unfold holds_C07 in E; cbv zeta in E.
+  do 2 (split_seg E; [not_here E|]).
+  split_seg E.
+  { apply in_map_iff in E. destruct E as ([[o d] v] & E & Hin). injection E as E. cbn [obs_of o_oearned o_earned fst snd] in E, Hin.
+    rewrite (osum_obs univ code nc cb s o d Hw Ht), <- (t_eq _ Ht o d), (getz_in_NoDup (o, d) v (oearned s) (t_ok _ Ht) Hin), Z.eqb_refl in E. discriminate. }
+  split_seg E.
+  { apply in_map_iff in E. destruct E as ([[p0 d] v] & E & Hin). injection E as E. cbn [obs_of o_oearned o_earned fst snd] in E, Hin.
+    rewrite (osum_obs univ code nc cb s _ d Hw Ht), <- (t_eq _ Ht _ d), Z.eqb_refl in E. discriminate. }
+  not_here E.
+Qed.
+
 (** ** C08, clauses 8 and 9 *)
 Lemma c08_clause8_new univ code nc cb s e : QInv s ->
   let o := obs_of univ code nc cb s in
@@ -246,22 +475,6 @@ Proof.
   intros Hnd Hin. cbn [obs_of o_ctxs] in Hin. apply in_map_iff in Hin. destruct Hin as ([id x] & <- & Hin).
   exists x. split; [|reflexivity]. apply In_get_NoDup; assumption.
 Qed.
-
-(** ** splitting the clause lists *)
-Ltac not_here E :=
-  repeat match type of E with
-  | In _ [] => contradiction E
-  | In _ (_ :: _) => destruct E as [E|E]; [try discriminate E|]
-  | In _ (_ ++ _) => apply in_app_or in E; destruct E as [E|E]
-  | In _ (if ?b then _ else _) => destruct b
-  | In _ (match ?x with _ => _ end) => destruct x
-  | In _ (flat_map _ _) => let a := fresh "a" in apply in_flat_map in E; destruct E as (a & _ & E)
-  | In _ (map _ _) =>
-      let x0 := fresh "x0" in let Hin := fresh "Hin" in
-      apply in_map_iff in E; destruct E as (x0 & E & Hin); try (destruct x0 as [? ?]); discriminate E
-  end.
-
-Ltac split_seg E := apply in_app_or in E; destruct E as [E|E].
 
 Theorem model_passes_C07_clauses_1_2_lemma :
   forall c steps h0 t0 l0 univ p st code nc cb,
